@@ -6,14 +6,24 @@ def _nontrivial(op, out):
     return " S ok" in out or out.startswith("S ok")
 
 
+def _corr_skip(op, impl, model):
+    # `AT 4 u<n>`: Install stops by itself inside Unarchive on a truncated archive. What has been unpacked below the staging
+    # directory by then depends on the gzip stream; the model treats it as a kill before Unarchive. Only the observations
+    # after the tree (start-up, binaries, repositories) are compared for these lines.
+    if " AT 4 u" in op:
+        return impl[impl.find(" S "):] == model[model.find(" S "):]
+    return False
+
+
 PROP = dict(
     lean_modules=["Octo.Props.C27"],
     required_theorems=["Octo.C27.steps_tie", "Octo.C27.crash_points_tie", "Octo.C27.paths_tie", "Octo.C27.download_under",
-                       "Octo.C27.C27_partial", "Octo.C27.C27_fresh", "Octo.C27.C27_addrepo", "Octo.C27.C27_resolves",
+                       "Octo.C27.registry_decodes", "Octo.C27.C27_partial", "Octo.C27.C27_fresh", "Octo.C27.C27_addrepo", "Octo.C27.C27_resolves",
                        "Octo.C27.C27_refuted"],
     needs_binary=True,
     gen=["installsteps"],
     nontrivial=_nontrivial,
+    corr_skip=_corr_skip,
     rule="per round: one generated healthy tree (repos x plugins x versions with binaries, optional extension registry and "
          "repository entries, leftovers of earlier crashes) + configuration whose databases resolve; `plugin install` of a "
          "fresh plugin / a new version / the SAME version again, killed before every one of the 12 instrumented filesystem "
